@@ -224,9 +224,108 @@ def run_chatty(cfg, periods=5):
     return part
 
 
+def run_throttled(case):
+    """speed limits and timeouts together: the time the server itself sleeps for a speed limit is not the peer's
+    silence - a peer that never stalls is never dropped, however slow the configured rate"""
+    part = report.Partial()
+    what = case["throttled"]
+    skw = {"block_size": 4, "wait_future_timeout": WF}
+    if what == "retr":
+        skw.update(write_speed_limit_per_connection=1, socket_timeout=3)        # one block = a 4 s pause > 3 s
+    elif what == "stor":
+        skw.update(read_speed_limit_per_connection=1, socket_timeout=3)
+    elif what == "chatty":
+        skw.update(read_speed_limit_per_connection=10, idle_timeout=2)         # one command line = a 2-3 s pause
+    elif what == "list":
+        skw.update(write_speed_limit=2, socket_timeout=3)
+    rig = Rig(n_sessions=1, tree=corpus.TREE, window=65536, server_kwargs=skw, advance=0)
+    problems = []
+    try:
+        w = rig.world
+        s = rig.sessions[0]
+
+        def step(e, within, final=True):
+            """send e; virtual time runs only until the server has answered (at most `within` seconds): the peer
+            reacts at once, every pause is the server's own throttle"""
+            r0 = rig.ev(0, e, advance=0) or []
+            if e.startswith("@") and e != "@connect":
+                return
+            if any((not final) or c[:1] != "1" for c, _ in r0):
+                return
+
+            def answered():
+                lines = [l for l in bytes(s.ctl.p.buf).split(b"\r\n")[:-1] if l[:3].isdigit() and l[3:4] == b" "]
+                return any((not final) or l[:1] != b"1" for l in lines)
+            w.settle(within, until=answered)
+
+        def codes_since(n):
+            rig.collect()
+            return [c for _, rr in s.transcript[n:] for c, _ in rr]
+
+        if what in ("retr", "stor", "list"):
+            step("@connect", 2000)
+            step("USER anonymous", 2000)
+            step("EPSV", 2000)
+            step("@data", 1)
+            n0 = len(s.transcript)
+            if what == "retr":
+                step("RETR d/f", 2000)
+                codes = codes_since(n0)
+                if "226" not in codes or s.data is None or s.data.received != corpus.FILE:
+                    problems.append({"kind": "throttled-transfer-cut-although-the-peer-never-stalled", "codes": codes,
+                                     "received": None if s.data is None else len(s.data.received)})
+            elif what == "list":
+                step("LIST", 2000)
+                codes = codes_since(n0)
+                if "226" not in codes:
+                    problems.append({"kind": "throttled-transfer-cut-although-the-peer-never-stalled", "codes": codes})
+            else:
+                step("STOR new", 2000, final=False)
+                for chunk in ("0123", "4567", "89"):
+                    step("@dsend " + chunk, 0)
+                rig.ev(0, "@dclose", advance=0)
+                w.settle(2000, until=lambda: b"226" in bytes(s.ctl.p.buf) or s.closed())
+                codes = codes_since(n0)
+                if "226" not in codes or rig.snapshot().get("/new") != b"0123456789":
+                    problems.append({"kind": "throttled-transfer-cut-although-the-peer-never-stalled", "codes": codes,
+                                     "stored": repr(rig.snapshot().get("/new"))})
+            if s.closed():
+                problems.append({"kind": "session-dropped-although-the-peer-never-stalled"})
+            else:
+                n1 = len(s.transcript)
+                step("PWD", 2000)
+                if "257" not in codes_since(n1):
+                    problems.append({"kind": "followup-pwd", "codes": codes_since(n1)})
+        else:
+            step("@connect", 0)
+            step("USER anonymous", 0)
+            for i in range(6):
+                w.advance_to(w.loop.time() + 1.0)
+                step("MLST " + "d/../" * 4 + "d", 0)
+            w.settle(1.5)
+            rig.collect()
+            n_replies = sum(1 for ev_, rr in s.transcript for c, _ in rr if c == "250")
+            if s.closed():
+                problems.append({"kind": "chatty-session-dropped", "replies": n_replies})
+        part.evaluations += 1
+        part.traces += 1
+        part.transitions += w.net.n_events
+        k = report.fp(["throttled", what])
+        part.states.add(k)
+        part.nontrivial.add(k)
+        for p in problems[:1]:
+            part.violation({"kind": p["kind"], "throttled": what}, {"problem": p, "server": skw}, replay={"case": case,
+                           "choices": [], "kinds": []})
+    finally:
+        rig.close()
+    return part
+
+
 def _work(item):
     case, bound, kinds = item
     part = report.Partial()
+    if case.get("throttled"):
+        return run_throttled(case)
     if case.get("chatty"):
         return run_chatty(tuple(case["cfg"]))
     try:
@@ -252,7 +351,7 @@ def _work(item):
 
 
 def build_items(tier):
-    items = []
+    items = [({"throttled": what}, 0, []) for what in ("retr", "stor", "chatty", "list")]
     cfgs = list(itertools.product((None, IDLE), (None, SOCK), (None, WF)))
     for cfg in cfgs:
         items.append(({"chatty": True, "cfg": list(cfg)}, 0, []))
@@ -285,6 +384,8 @@ def run(tier, seed, t0):
               "stall_kinds": ["silent", "noread (peer window closed)", "never connects data (scripts *-no-data)",
                               "QUIT (alone or pipelined behind other commands) from a peer that does not read the replies"],
               "chatty": "command every idle-1 s for 5 periods",
+              "with_speed_limits": "throttle pauses longer than socket_timeout / idle_timeout (RETR, STOR, LIST, chatty control "
+                                   "session): a peer that never stalls is never dropped",
               "user_manager": "stock, and one whose logout notification takes 5 s (silent stalls)", "horizon_s": HORIZON, "cases": len(items)}
     return report.finish(
         PID, tier, seed, "model_checking", part, t0,
@@ -301,6 +402,10 @@ def run(tier, seed, t0):
 def replay(path):
     data = json.loads(open(path).read())
     rp = data["replay"]
+    if rp["case"].get("throttled"):
+        part = run_throttled(rp["case"])
+        print(json.dumps([v["detail"] for v in part.violations], indent=1, default=repr))
+        return 1 if part.violations else 0
     res = run_stall(rp["case"], Chooser(rp["choices"], rp.get("kinds") or None))
     print(json.dumps({"case": rp["case"], "problems": res["problems"]}, indent=1, default=repr))
     return 1 if res["problems"] else 0
